@@ -28,7 +28,7 @@ LEVEL_TEXT = ("Theorems in coq/Props/C11.v about the executable heap model coq/H
               "library, re-dumping every node twice after every step.")
 LEVEL_NOTE = ("Modelled, not verified: the Go code of node/basicnode, matcher.go Slice, datamodel.Copy, FocusedTransform (as API clients "
               "in coq/Heap/Script.v), bytes.Reader / io.SectionReader / readerat (net effect of io.ReadAll). bindnode and gendemo have NO model: "
-              "for them the check is the oracle alone (held children re-dumped; class typed_child_changed). Nodes of other "
+              "for them the check is the oracle alone (held children re-dumped; class typed_child_changed); C11_any_engine states the two per-call facts a model of them would have to supply (docs/C11.md). Nodes of other "
               "implementations are modelled as immutable values (RForeign). The theorems are about API-call histories; that the "
               "script-level clients (copy, transform, decoders, dump, the re-dump after every step) are such histories is "
               "C11_scripts_are_legal_histories / C11_script_stable. Uint nodes, links and huge size hints are not exercised.")
